@@ -887,6 +887,11 @@ def thunks(sf, st, rep, n, D, args):
         gp = np.linspace(-7.5, 7.5, 61) * math.sqrt(sf.hbar / 2)
         add(f"x_quad_values:{m}", lambda: np.array(st.x_quad_values(m, gx, gp)), cheap=False)
         add(f"p_quad_values:{m}", lambda: np.array(st.p_quad_values(m, gx, gp)), cheap=False)
+        # the other grid shapes (seeded C16-e1 class): equally long grids of different spacing, and more x than p points
+        for tag, (hx, hp) in QUAD_GRIDS.items():
+            hx, hp = hx * math.sqrt(sf.hbar / 2), hp * math.sqrt(sf.hbar / 2)
+            add(f"x_quad_values{tag}:{m}", lambda hx=hx, hp=hp: np.array(st.x_quad_values(m, hx, hp)), cheap=False)
+            add(f"p_quad_values{tag}:{m}", lambda hx=hx, hp=hp: np.array(st.p_quad_values(m, hx, hp)), cheap=False)
     add("fidelity_vacuum", st.fidelity_vacuum)
     add("fidelity_coherent", lambda: st.fidelity_coherent(list(args["alphas"])))
     add("fidelity_coherent0", lambda: st.fidelity_coherent([0.0] * n))
@@ -1043,6 +1048,11 @@ def expected_ps(ps, n, D, args, hbar):
     return e
 
 
+# further (x grid, p grid) shapes for the Wigner marginals, in units of sqrt(hbar/2): "=": equally long, different spacing;
+# ">": more x points than p points (the first pair, 57 x / 61 p points, is built in place)
+QUAD_GRIDS = {"=": (np.linspace(-7, 7, 59), np.linspace(-7.6, 7.6, 59)), ">": (np.linspace(-7.2, 7.2, 63), np.linspace(-7, 7, 55))}
+
+
 def expected_marginals(ps, n, args, hbar):
     """x / p marginals of the Wigner function of one mode: normal densities with the moments of the reference"""
     e = {}
@@ -1053,6 +1063,11 @@ def expected_marginals(ps, n, args, hbar):
         for name, grid, phi in (("x_quad_values", gx, 0.0), ("p_quad_values", gp, math.pi / 2)):
             mean, var = ps.quad(m, phi)
             e[f"{name}:{m}"] = np.exp(-0.5 * (grid - mean) ** 2 / var) / math.sqrt(2 * math.pi * var)
+        for tag, (hx, hp) in QUAD_GRIDS.items():
+            hx, hp = hx * math.sqrt(hbar / 2), hp * math.sqrt(hbar / 2)
+            for name, grid, phi in ((f"x_quad_values{tag}", hx, 0.0), (f"p_quad_values{tag}", hp, math.pi / 2)):
+                mean, var = ps.quad(m, phi)
+                e[f"{name}:{m}"] = np.exp(-0.5 * (grid - mean) ** 2 / var) / math.sqrt(2 * math.pi * var)
     return e
 
 
